@@ -37,11 +37,12 @@ type TaskCase struct {
 	Cond       string `json:"cond"`                  // "", "true", "false"
 	CondStatus int    `json:"cond_status,omitempty"` // exit status of a false condition (default 1)
 	Pipeline   bool   `json:"pipeline"`
+	EmptyVar   int    `json:"empty_var,omitempty"` // this variation (1-based) is an empty map: it varies nothing but is a declared variation all the same
 	StageOv    string `json:"stage_ov,omitempty"` // with Pipeline: the stage carries an override (env, vars, dir), so the scheduler runs a copy of the task
 }
 
 func (c TaskCase) String() string {
-	return fmt.Sprintf("status=%v variations=%d allow=%v before=%q after=%q cond=%q pipeline=%v%s", c.Status, c.Variations, c.Allow, c.Before, c.After, c.Cond, c.Pipeline, map[bool]string{true: " stage-override=" + c.StageOv, false: ""}[c.StageOv != ""])
+	return fmt.Sprintf("status=%v variations=%d allow=%v before=%q after=%q cond=%q pipeline=%v%s%s", c.Status, c.Variations, c.Allow, c.Before, c.After, c.Cond, c.Pipeline, map[bool]string{true: " stage-override=" + c.StageOv, false: ""}[c.StageOv != ""], map[bool]string{true: fmt.Sprintf(" empty-variation=%d", c.EmptyVar), false: ""}[c.EmptyVar != 0])
 }
 
 type expect struct {
@@ -86,7 +87,11 @@ func model(c TaskCase) expect {
 	if c.Variations > 0 {
 		vars = nil
 		for v := 1; v <= c.Variations; v++ {
-			vars = append(vars, fmt.Sprintf("v%d", v))
+			if v == c.EmptyVar {
+				vars = append(vars, "")
+			} else {
+				vars = append(vars, fmt.Sprintf("v%d", v))
+			}
 		}
 	}
 	for _, v := range vars {
@@ -120,7 +125,11 @@ func buildTask(c TaskCase) *task.Task {
 		t.Commands = append(t.Commands, cmd)
 	}
 	for v := 1; v <= c.Variations; v++ {
-		t.Variations = append(t.Variations, map[string]string{"V": fmt.Sprintf("v%d", v)})
+		if v == c.EmptyVar {
+			t.Variations = append(t.Variations, map[string]string{})
+		} else {
+			t.Variations = append(t.Variations, map[string]string{"V": fmt.Sprintf("v%d", v)})
+		}
 	}
 	switch c.Before {
 	case "ok":
@@ -435,6 +444,27 @@ func main() {
 		}
 		for s := 1; s <= 255; s++ { // a condition that exits with any non-zero status means "skipped"
 			if do(TaskCase{Status: []int{0}, Cond: "false", CondStatus: s}) {
+				goto done
+			}
+		}
+	case "emptyvar": // a variation that is an empty map, at every position of 1..3 variations
+		for k := 1; k <= 2; k++ {
+			stop := false
+			forStatus(k, []int{0, 1}, func(st []int) {
+				for v := 1; v <= 3; v++ {
+					for ev := 1; ev <= v; ev++ {
+						for _, allow := range []bool{false, true} {
+							for _, pl := range []bool{false, true} {
+								if stop || do(TaskCase{Status: st, Variations: v, EmptyVar: ev, Allow: allow, Before: "ok", After: "ok", Pipeline: pl}) {
+									stop = true
+									return
+								}
+							}
+						}
+					}
+				}
+			})
+			if stop {
 				goto done
 			}
 		}
@@ -884,7 +914,16 @@ func runCli(c cliCase) string {
   skip:
     condition: "exit 1"
     command: "echo skip >> %[1]s"
+  slowok:
+    command: "echo slowok >> %[1]s; sleep 0.3"
+  latefail:
+    command: "sleep 0.1; echo latefail >> %[1]s; exit %[2]d"
 pipelines:
+  ppar:
+    - task: slowok
+      name: s1
+    - task: latefail
+      name: s2
   pallow:
     - task: ok2
       name: s1
@@ -956,6 +995,9 @@ pipelines:
 		case "allow": // failures were allowed: the target succeeded
 			want = append(want, "allow", "allow2")
 		case "skip": // skipped by its condition: nothing ran, the target did not fail
+		case "ppar": // two independent stages: one fails, the other one finishes later and succeeds - the pipeline failed
+			want = append(want, "slowok", "latefail")
+			allOK = false
 		case "pallow": // the failing stage allows failure: its dependant runs, the pipeline succeeded
 			want = append(want, "ok2", "fail", "ok")
 		case "fail":
@@ -973,6 +1015,11 @@ pipelines:
 	}
 	b, _ := os.ReadFile(trace)
 	got := strings.Fields(string(b))
+	for i := 0; i+1 < len(got); i++ { // the two stages of ppar are independent: their relative order is not prescribed
+		if got[i] == "latefail" && got[i+1] == "slowok" {
+			got[i], got[i+1] = got[i+1], got[i]
+		}
+	}
 	if strings.Join(got, " ") != strings.Join(want, " ") {
 		return fmt.Sprintf("trace %v, model %v (exit status %d)", got, want, code)
 	}
@@ -984,7 +1031,7 @@ pipelines:
 
 func cliUnit(res *common.Result, maxLen int, statuses []int) {
 	flagLen := maxLen - 1 // non-default flag sets: target sequences one shorter than the maximum
-	alphabet := []string{"ok", "fail", "pok", "pfail", "unknown", "allow", "skip", "pallow"}
+	alphabet := []string{"ok", "fail", "pok", "pfail", "unknown", "allow", "skip", "pallow", "ppar"}
 	var idx int64
 	distinct := map[string]bool{}
 	var rec func(cur []string) bool
@@ -992,7 +1039,7 @@ func cliUnit(res *common.Result, maxLen int, statuses []int) {
 		// A pipeline listed twice is outside the statement (it says nothing about repeated
 		// targets; today a second occurrence finds its stages already done and runs nothing):
 		// such sequences are not enumerated.
-		npok, npfail, npallow := 0, 0, 0
+		npok, npfail, npallow, nppar := 0, 0, 0, 0
 		for _, t := range cur {
 			if t == "pok" {
 				npok++
@@ -1003,15 +1050,18 @@ func cliUnit(res *common.Result, maxLen int, statuses []int) {
 			if t == "pallow" {
 				npallow++
 			}
+			if t == "ppar" {
+				nppar++
+			}
 		}
-		if npok > 1 || npfail > 1 || npallow > 1 {
+		if npok > 1 || npfail > 1 || npallow > 1 || nppar > 1 {
 			return false
 		}
 		if len(cur) > 0 {
 			vias := []string{"", "run"}
 			onlyTasks := true
 			for _, t := range cur {
-				if t == "pok" || t == "pfail" || t == "pallow" {
+				if t == "pok" || t == "pfail" || t == "pallow" || t == "ppar" {
 					onlyTasks = false
 				}
 			}
